@@ -947,6 +947,13 @@ class World:
         """`requires A.f is B.g` over object-valued fields: the precondition is an aliasing fact; make the
         two paths denote the same symbolic object."""
         tree = self.parse_expr(clause)
+        if (isinstance(tree, ast.Call) and isinstance(tree.func, ast.Name) and tree.func.id == "implies" and len(tree.args) == 2
+                and isinstance(tree.args[1], ast.Compare) and len(tree.args[1].ops) == 1 and isinstance(tree.args[1].ops[0], ast.Is)
+                and isinstance(tree.args[1].left, ast.Attribute)):
+            # guarded aliasing fact (implies(x is not None, x.f is y)): decide the guard on this path, then alias
+            if not eng.branch(eng.truth(eng.eval(tree.args[0], fr))):
+                return True
+            tree = tree.args[1]
         if not (isinstance(tree, ast.Compare) and len(tree.ops) == 1 and isinstance(tree.ops[0], ast.Is)
                 and isinstance(tree.left, ast.Attribute)):
             return False
